@@ -139,6 +139,9 @@ structure WellFormedDef (env : List OType) (d : Def) : Prop where
   /-- no type parameter re-declares an inherited one (trivially true of a definition without `type_parameters`) -/
   params : d.params.any (fun q => (typeParams (parentOf env d)).any (fun r => r.1 == q.1)) = false
   noBoth : d.constants.any (fun c => d.attrs.any (fun a => a.name == c.1)) = false
+  /-- every member function is a fresh name or a proper override of an inherited function (trivially true of a definition
+      without `functions`) -/
+  funcs : defineFuncs (parentOf env d) d.funcs = .ok ()
   attrs : ∀ a ∈ d.decls (parentOf env d), AttrDeclOK a
   override : ∀ a ∈ d.decls (parentOf env d), OverrideOK (parentOf env d) a
   equality : ∀ as, defineAttrs (parentOf env d) (d.decls (parentOf env d)) = .ok as →
@@ -162,31 +165,33 @@ theorem C17_schema_partial {env : List OType} {d : Def} (h : WellFormedDef env d
       rw [hs]
       exact checkSerialization_succeeds h1 (fun hb => by cases hb) h2 h3 (by simp)
   unfold define
-  simp only [h.params, h.noBoth, Bool.false_eq_true, if_false, has, heq, hser]
+  simp only [h.params, h.noBoth, h.funcs, Bool.false_eq_true, if_false, has, heq, hser]
   exact ⟨_, rfl⟩
 
 /-! ### … and its init-hash is an instance of the declared schema `TypeObjectInitHash` (regenerated table) -/
 
 /-- obligation over the regenerated member table of `TypeObjectInitHash` (types/objecttype.go): this is what a change of
     the schema breaks (e.g. listing `equality` twice, the defect repaired by 54779d2) -/
-theorem C17_schema_table_ok : schemaOKb Pcore.Generated.objectSchema = true := by decide
+theorem C17_schema_table_ok : schemaOKb Pcore.Generated.objectSchema = true := by decide +kernel
 
 /-- every name of the definition matches MemberNamePattern (what the driver's universe guarantees: `nameOf`) -/
 structure DefNamesValid (d : Def) : Prop where
   params : ∀ q ∈ d.params, memberName q.1 = true
   attrs : ∀ a ∈ d.attrs, memberName a.name = true
   constants : ∀ c ∈ d.constants, memberName c.1 = true
+  funcs : ∀ f ∈ d.funcs, memberName f.name = true
   equality : ∀ n ∈ d.equality.toList?.getD [], memberName n = true
   serialization : ∀ ser, d.serialization = some ser → ∀ n ∈ ser, memberName n = true
 
-theorem keys_nodup : ∀ b1 b2 b8 b3 b4 b5 b6 b7 : Bool,
+theorem keys_nodup : ∀ b1 b2 b8 b3 b4 b5 b6 b7 b9 : Bool,
     ((if b1 then ["name"] else []) ++ (if b2 then ["parent"] else []) ++
      (if b8 then ["type_parameters"] else []) ++ (if b3 then ["attributes"] else []) ++
-     (if b7 then ["constants"] else []) ++
+     (if b7 then ["constants"] else []) ++ (if b9 then ["functions"] else []) ++
      (if b4 then ["equality"] else []) ++ (if b5 then ["equality_include_type"] else []) ++
      (if b6 then ["serialization"] else [])).Nodup := by
-  intro b1 b2 b8 b3 b4 b5 b6 b7
-  cases b1 <;> cases b2 <;> cases b8 <;> cases b3 <;> cases b4 <;> cases b5 <;> cases b6 <;> cases b7 <;> decide
+  intro b1 b2 b8 b3 b4 b5 b6 b7 b9
+  cases b1 <;> cases b2 <;> cases b8 <;> cases b3 <;> cases b4 <;> cases b5 <;> cases b6 <;> cases b7 <;> cases b9 <;>
+    decide
 
 theorem defHash_keys (name : Option String) (pk : Bool) (d : Def) :
     (defHash name pk d).map (·.1) =
@@ -194,13 +199,16 @@ theorem defHash_keys (name : Option String) (pk : Bool) (d : Def) :
       (if !d.params.isEmpty then ["type_parameters"] else []) ++
       (if !d.attrs.isEmpty then ["attributes"] else []) ++
       (if !d.constants.isEmpty then ["constants"] else []) ++
+      (if !d.funcs.isEmpty then ["functions"] else []) ++
       (if d.equality != .absent then ["equality"] else []) ++
       (if d.includeType.isSome then ["equality_include_type"] else []) ++
       (if d.serialization.isSome then ["serialization"] else []) := by
+  have hite : ∀ (c : Bool) (k : String) (v : SVal),
+      ((if c = true then [] else [(k, v)] : List (String × SVal))).map (·.1) = if (!c) = true then [k] else [] := by
+    intro c k v; cases c <;> rfl
   unfold defHash
-  cases name <;> cases pk <;> cases d.params.isEmpty <;> cases d.attrs.isEmpty <;> cases d.constants.isEmpty <;>
-    cases d.equality <;>
-    cases d.includeType <;> cases d.serialization <;> rfl
+  simp only [List.map_append, hite]
+  cases name <;> cases pk <;> cases d.equality <;> cases d.includeType <;> cases d.serialization <;> rfl
 
 /-- for ANY member table satisfying the side condition, the init-hash of every definition of the universe — as parsed
     text (no `name`/`parent` entry) or as a complete init-hash — is an instance of the Struct, whatever the definition
@@ -210,13 +218,13 @@ theorem C17_schema_admits (s : Schema) (hs : schemaOKb s = true) (d : Def) (hd :
     structInst s.members (defHash name pk d) = true := by
   unfold schemaOKb at hs
   simp only [Bool.and_eq_true, decide_eq_true_eq, List.all_eq_true, beq_iff_eq] at hs
-  obtain ⟨⟨⟨⟨⟨⟨⟨⟨⟨⟨⟨hnd, hopt⟩, h1⟩, h2⟩, h8⟩, h3⟩, h7⟩, h4⟩, h5⟩, h6⟩, _⟩, _⟩ := hs
+  obtain ⟨⟨⟨⟨⟨⟨⟨⟨⟨⟨⟨⟨hnd, hopt⟩, h1⟩, h2⟩, h8⟩, h3⟩, h7⟩, h9⟩, h4⟩, h5⟩, h6⟩, _⟩, _⟩ := hs
   apply structInst_of hnd hopt
-  · rw [defHash_keys]; exact keys_nodup _ _ _ _ _ _ _ _
+  · rw [defHash_keys]; exact keys_nodup _ _ _ _ _ _ _ _ _
   · intro e he
     unfold defHash at he
     simp only [List.mem_append] at he
-    rcases he with ((((((he | he) | he) | he) | he) | he) | he) | he
+    rcases he with (((((((he | he) | he) | he) | he) | he) | he) | he) | he
     · cases name with
       | none => simp at he
       | some n =>
@@ -256,6 +264,15 @@ theorem C17_schema_admits (s : Schema) (hs : schemaOKb s = true) (d : Def) (hd :
         simp only [sinst, List.all_eq_true, List.mem_map]
         rintro n ⟨c, hc, rfl⟩
         exact hd.constants c hc
+    · by_cases hemp : d.funcs.isEmpty = true
+      · simp [hemp] at he
+      · simp [hemp] at he; subst he
+        obtain ⟨m, hm, hmn, hmt⟩ := memberTy_mem h9
+        refine ⟨m, hm, hmn, ?_⟩
+        rw [hmt]
+        simp only [sinst, List.all_eq_true, List.mem_map, Bool.or_eq_true]
+        rintro n ⟨f, hf, rfl⟩
+        exact Or.inl (hd.funcs f hf)
     · obtain ⟨m, hm, hmn, hmt⟩ := memberTy_mem h4
       cases hq : d.equality with
       | absent => simp [hq] at he
@@ -775,7 +792,7 @@ theorem tyEqDeep_length {t o : OType} (h : tyEqDeep t o = true) : t.length = o.l
     | nil => simp [tyEqDeep] at h
     | cons l' p' =>
       simp only [tyEqDeep, Bool.and_eq_true] at h
-      simp [ih h.1.1.1.1.2]
+      simp [ih h.1.1.1.1.1.2]
 
 theorem tyEq_length {t o : OType} (h : tyEq t o = true) : t.length = o.length := by
   unfold tyEq at h
@@ -856,7 +873,7 @@ theorem assertOverride_asg {parent : OType} {a pa : Attr} (ho : assertOverride p
 theorem C17_override_sound {env : List OType} {d : Def} {l : Level} {p : OType} (h : define env d = .ok (l :: p))
     {a pa : Attr} (ha : a ∈ l.attrs) (hf : findAttr p a.name = some pa) {v : Val} (hv : inst a.ty v = true) :
     inst pa.ty v = true := by
-  obtain ⟨-, -, attrs, hattrs, -, -, ht⟩ := define_parts h
+  obtain ⟨-, -, attrs, hattrs, -, -, -, ht⟩ := define_parts h
   have hl : l.attrs = attrs := by rw [(List.cons.inj ht).1]
   have hp : p = parentOf env d := (List.cons.inj ht).2
   rw [hl] at ha
@@ -1303,7 +1320,7 @@ theorem C17_type_inithash_same {env : List OType} {d : Def} {l : Level} {p : OTy
       get { typ := l :: p, values := vs } n) ∧
     (∀ vs, initHash { typ := { l with attrs := reorder l.attrs } :: p, values := vs } =
       initHash { typ := l :: p, values := vs }) := by
-  obtain ⟨-, hboth, attrs, hattrs, -, -, ht⟩ := define_parts h
+  obtain ⟨-, hboth, attrs, hattrs, -, -, -, ht⟩ := define_parts h
   have hla : l.attrs = attrs := by rw [(List.cons.inj ht).1]
   have hnd : (l.attrs.map (·.name)).Nodup := by
     rw [hla, (defineAttrs_ok hattrs).1]; exact decls_nodup hd.names hd.constNames hboth
@@ -1448,7 +1465,7 @@ example : WellFormedDef [] (sampleDefs.headD default) := by
   have hdecls : (sampleDefs.headD default).decls (parentOf [] (sampleDefs.headD default)) =
       [{ name := "a", ty := .int, kind := .normal, dflt := none },
        { name := "k", ty := .int, kind := .constant, dflt := some (.int 7) }] := rfl
-  refine ⟨rfl, rfl, ?_, ?_, ?_, ?_⟩
+  refine ⟨rfl, rfl, rfl, ?_, ?_, ?_, ?_⟩
   · intro a ha
     rw [hdecls] at ha
     simp only [List.mem_cons, List.not_mem_nil, or_false] at ha
